@@ -101,7 +101,7 @@ def gen(rng):
                 sub=[rng.choice(vs) for _ in range(rng.randint(1,4))]; t=rng.randint(-3,8)
                 f=rng.choice(["sum_eq","sum_le","sum_ge"]); m.add(getattr(m,f)(sub,t)); desc.append(f"{f}{[v.name for v in sub]},{t}")
             elif kind=="circuit":
-                m.add(m.circuit(vs)); desc.append("circuit")
+                if len(vs)>1: m.add(m.circuit(vs)); desc.append("circuit")
             elif kind=="no_overlap":
                 sub=rng.sample(vs,rng.randint(1,len(vs))); du=[rng.randint(0,3) for _ in sub]
                 m.add(m.no_overlap(sub,du)); desc.append(f"no_overlap{[v.name for v in sub]},{du}")
